@@ -28,7 +28,10 @@ Qed.
 Theorem add_locations_sound existing reqs outs :
   add_locations existing reqs = Ok outs ->
   table_sound 1 255 [64] existing (carried_first reqs) outs.
-Proof. intros H. apply (engine_table_sound true (Some (1, MAX_LOCATIONS)) 1 MAX_LOCATIONS [ANYWHERE_LOCATION_ID]) in H. exact H. Qed.
+Proof.
+  unfold add_locations. destruct (existsb _ _); [discriminate|]. intros H.
+  apply (engine_table_sound true (Some (1, MAX_LOCATIONS)) 1 MAX_LOCATIONS [ANYWHERE_LOCATION_ID]) in H. exact H.
+Qed.
 
 Theorem add_cuwp_slots_sound existing reqs outs :
   add_cuwp_slots existing reqs = Ok outs ->
@@ -83,14 +86,35 @@ Proof. unfold carried_first. rewrite in_app_iff, !filter_In. tauto. Qed.
 
 Theorem full_table_never_blocks_a_noop existing reqs :
   count_fresh reqs = 0%nat ->
-  (forall k, In (RCarry k) reqs -> 1 <= k <= 255) ->      (* carried location indices inside the table *)
-  (exists o, add_locations existing reqs = Ok o) /\ (exists o, add_cuwp_slots existing reqs = Ok o) /\
+  ((forall k, In (RCarry k) reqs -> 1 <= k <= 255) -> (forall k, In k existing -> 1 <= k <= 255) ->
+   exists o, add_locations existing reqs = Ok o) /\   (* location indices inside the table *)
+  (exists o, add_cuwp_slots existing reqs = Ok o) /\
   (exists o, add_wav_files existing reqs = Ok o) /\ (exists o, add_switches existing reqs = Ok o).
 Proof.
-  intros H Hr. repeat split; apply engine_no_fresh_ok; rewrite ?count_fresh_carried_first; try assumption;
-    try (intros; reflexivity).
+  intros H. split; [|repeat split; apply engine_no_fresh_ok; rewrite ?count_fresh_carried_first; try assumption;
+                      intros; reflexivity].
+  intros Hr He. unfold add_locations.
+  assert (Hpre : existsb (fun k => (k <? 1) || (MAX_LOCATIONS <? k)) (existing ++ carried_ids reqs) = false).
+  { apply not_true_is_false. intros Hx. apply existsb_exists in Hx as (k & Hin & Hk).
+    assert (1 <= k <= 255) as Hb.
+    { apply in_app_iff in Hin as [Hin|Hin]; [apply He; exact Hin|].
+      apply Hr. unfold carried_ids in Hin. apply in_flat_map in Hin as (r & Hr1 & Hr2).
+      destruct r; simpl in Hr2; try contradiction. destruct Hr2 as [->|[]]. exact Hr1. }
+    unfold MAX_LOCATIONS in Hk. apply orb_true_iff in Hk as [Hk|Hk]; apply N.ltb_lt in Hk; lia. }
+  rewrite Hpre. apply engine_no_fresh_ok; rewrite ?count_fresh_carried_first; try assumption.
   intros k Hk. apply in_carried_first in Hk. specialize (Hr k Hk). unfold MAX_LOCATIONS.
   apply orb_false_iff. split; apply N.ltb_ge; lia.
+Qed.
+
+(* an index outside the table is refused before anything is placed, however full the table is and wherever the
+   location sits (in the section already, or only in a trigger) *)
+Theorem out_of_range_location_is_refused existing reqs k :
+  In k (existing ++ carried_ids reqs) -> k < 1 \/ 255 < k -> add_locations existing reqs = Raise ValueError.
+Proof.
+  intros Hin Hk. unfold add_locations.
+  assert (existsb (fun k => (k <? 1) || (MAX_LOCATIONS <? k)) (existing ++ carried_ids reqs) = true) as ->; [|reflexivity].
+  apply existsb_exists. exists k. split; [exact Hin|]. unfold MAX_LOCATIONS.
+  destruct Hk as [Hk|Hk]; apply orb_true_iff; [left|right]; apply N.ltb_lt; exact Hk.
 Qed.
 
 (* MRGN does not raise when it runs out: the remaining locations are left unplaced (the save then raises
